@@ -520,7 +520,7 @@ func newConnServer(cfg connCfg) *connServer {
 		}
 		if v := q.Peek("bops"); v != nil {
 			// a handler that builds its body in several steps: b<text> SetBodyString, a<text> AppendBodyString, w<text> ctx.WriteString,
-			// r<text> SetBodyRaw, R SetBodyRaw(nil), x ResetBody; steps separated by '|'
+			// r<text> SetBodyRaw, R SetBodyRaw(nil), x ResetBody, s<text> SetBodyStream of exactly that text; steps separated by '|'
 			for _, op := range strings.Split(string(v), "|") {
 				if op == "" {
 					continue
@@ -535,6 +535,8 @@ func newConnServer(cfg connCfg) *connServer {
 					ctx.WriteString(arg)
 				case 'r':
 					ctx.Response.SetBodyRaw([]byte(arg))
+				case 's':
+					ctx.Response.SetBodyStream(strings.NewReader(arg), len(arg))
 				case 'R':
 					ctx.Response.SetBodyRaw(nil)
 				case 'x':
